@@ -322,7 +322,17 @@ class Index(object):
             shutil.rmtree(self.own_folder, ignore_errors=True)
 
     def raw(self):
-        return self.t.lru_trie_storage.raw(), self.t.links_store_storage.raw()
+        try:
+            return self.t.lru_trie_storage.raw(), self.t.links_store_storage.raw()
+        except ValueError:
+            # the index object is closed (a reopen failed half-way): read the files themselves
+            if self.folder is None:
+                raise
+            out = []
+            for name in ("lru_trie.dat", "link_store.dat"):
+                p = os.path.join(self.folder, name)
+                out.append(open(p, "rb").read() if os.path.exists(p) else b"")
+            return tuple(out)
 
 
 def report_dict(rep):
